@@ -14,7 +14,9 @@ pub fn cmd_equiv(a: &Args) {
     let res = util::par_map(jobs, threads, |(idx, spec)| {
         util::install_quiet_panic_hook();
         // compact ids, as produced by the readers (dup = through the ICCMA reader with duplicated attack lines)
-        let af = if idx % 3 == 2 { afio::build_dup(spec, *idx as u64) } else { afio::build_compact(spec) };
+        let pad = spec.tag.ends_with("#pad");
+        let af = if pad { afio::build_padded(spec, *idx as u64 + 5) } else if idx % 3 == 2 { afio::build_dup(spec, *idx as u64) } else { afio::build_compact(spec) };
+        let core_n = if pad { spec.n } else { 0 };
         let proj = afio::projection(&af);
         let r = catch_unwind(AssertUnwindSafe(|| {
             let ec = EquivalencyComputer::new(&af);
@@ -26,9 +28,9 @@ pub fn cmd_equiv(a: &Args) {
             json!({"classes": classes, "rlabels": rlabels, "to_reduced": to_reduced, "ratt": ratt, "rn": red.n_arguments()})
         }));
         match r {
-            Ok(v) => json!({"ev": "equiv", "idx": idx, "tag": spec.tag, "args": proj["args"], "att": proj["att"], "panic": false,
+            Ok(v) => json!({"ev": "equiv", "idx": idx, "tag": spec.tag, "args": proj["args"], "att": proj["att"], "core_n": core_n, "panic": false,
                 "classes": v["classes"], "rlabels": v["rlabels"], "to_reduced": v["to_reduced"], "ratt": v["ratt"], "rn": v["rn"]}).to_string(),
-            Err(_) => json!({"ev": "equiv", "idx": idx, "tag": spec.tag, "args": proj["args"], "att": proj["att"], "panic": true,
+            Err(_) => json!({"ev": "equiv", "idx": idx, "tag": spec.tag, "args": proj["args"], "att": proj["att"], "core_n": core_n, "panic": true,
                 "classes": [], "rlabels": [], "to_reduced": [], "ratt": [], "rn": 0}).to_string(),
         }
     });
